@@ -76,6 +76,27 @@ PathEveryCharAt(j) ==
   LET cp == 1 + ((j - 1) % 255)
   IN  KItem("path.parse", "every_character", [text |-> IF j <= 255 THEN "m/" \o CpsToStr(<<cp>>) \o "1" ELSE "m/1" \o CpsToStr(<<cp>>)])
 
+\* HISTORIES: several derivations on one thread of one process whose seeds / paths are related - the same seed again,
+\* seeds that differ in the first / last / a middle byte or word, a seed that is a prefix of the other, the same bytes
+\* rotated; sibling paths, the same path again.  A memo keyed by less than (seed, path) answers one of them wrongly.
+HistSeed(r, v) ==
+  LET a == Prng(K("hs", <<r>>), 64) IN
+  IF v = 0 THEN a
+  ELSE IF v = 1 THEN [a EXCEPT ![1] = (a[1] + 1) % 256]
+  ELSE IF v = 2 THEN [a EXCEPT ![64] = (a[64] + 1) % 256]
+  ELSE IF v = 3 THEN [a EXCEPT ![29] = (a[29] + 128) % 256]
+  ELSE IF v = 4 THEN SubSeq(a, 1, 32)
+  ELSE IF v = 5 THEN SubSeq(a, 2, 64) \o <<a[1]>>
+  ELSE IF v = 6 THEN [i \in 1..64 |-> IF i \in 9..16 THEN (a[i] + i) % 256 ELSE a[i]]
+  ELSE [i \in 1..64 |-> a[65 - i]]
+HistPaths == <<"m/44'/60'/0'/0/0", "m/44'/60'/0'/0/1", "m/44'/60'/0'/0", "m/0'/1", "m/0'/2", "m/44'/60'/0'/0/0">>
+NHist == IF Thorough THEN 200 ELSE 24
+HistAt(j) ==
+  LET mult == 1 + (j % 3)
+      np   == IF j % 2 = 0 THEN 2 ELSE 6
+      step(k) == [seed |-> BytesToHex(HistSeed(j, ((k * mult) + j) % 8)), path |-> HistPaths[1 + ((k + (j \div 8)) % np)]]
+  IN  KItem("hdk.derive.seq", "history", [steps |-> [k \in 1..12 |-> step(k)]])
+
 ForIdx == <<<<>>, <<1>>, <<2>>, <<7>>, <<1, 0, 0>>, BnSub(Two31, <<1>>), Two31, BnSub(BnPow2(32), <<1>>), BnPow2(32), BnPow2(63)>>
 ForIndexAt(j) == KItem("path.for_index", "for_index", [index |-> Str(DecCodes(BnToDec(ForIdx[j])))])
 
@@ -235,6 +256,15 @@ SigMutAt(j) ==
       pos  == IF q < 132 THEN q + 1 ELSE q - 131
   IN  KItem("sig.parse", "mutate_every_position",
             [text |-> Utf8ToStr(SubSeq(text, 1, pos - 1) \o MutChars[c] \o SubSeq(text, pos + 1, Len(text)))])
+\* bulk sweeps: 2^16 signatures per item over counter-generated digests, compared chunk-wise (4096) through hashes
+\* with the specification's signatures (Ecdsa!BulkSignHash): 2^18 signatures per quick run, 2^25 per thorough run
+\* (VERIF_BULK overrides the number of items)
+NBulk == IF "VERIF_BULK" \in DOMAIN IOEnv THEN atoi(IOEnv.VERIF_BULK) ELSE IF Thorough THEN 512 ELSE 4
+BulkAt(j) ==
+  KItem("key.sign.bulk", "bulk",
+        [secret |-> BytesToHex(IF j % 2 = 0 THEN SignKeys[4] ELSE Prng(K("bk", <<j>>), 31) \o <<1>>),
+         seed |-> BytesToHex(K("bulk", <<j>>)), from |-> 65536 * j, count |-> 65536, chunk |-> 4096])
+
 \* every character U+0001..U+00FF in the place of the first digit of r and of the last digit of v
 NSigEveryChar == 2 * 255
 SigEveryCharAt(j) ==
